@@ -56,7 +56,9 @@ var specStatus = map[string]int{
 
 var carriers = []string{"GetBlob", "GetBlobRange", "GetManifest", "GetTag", "ResolveBlob", "ResolveManifest", "ResolveTag",
 	"PushBlob", "PushBlobChunked", "PushBlobChunkedResume", "MountBlob", "PushManifest",
-	"DeleteBlob", "DeleteManifest", "DeleteTag", "Repositories", "Tags", "Referrers"}
+	"DeleteBlob", "DeleteManifest", "DeleteTag", "Repositories", "Tags", "Referrers",
+	// errors raised by the backend's BlobWriter rather than by an Interface method ("<call>@<stage>")
+	"Writer@write", "Writer@close", "Writer@commit", "PushBlob@write", "PushBlob@commit"}
 
 func isHead(c string) bool { return strings.HasPrefix(c, "Resolve") }
 
@@ -162,7 +164,60 @@ func call(reg ociregistry.Interface, carrier string, hops int) error {
 		_, err := ociregistry.All(reg.Referrers(ctx, "foo", dg, ""))
 		return err
 	}
+	if what, _, ok := strings.Cut(carrier, "@"); ok {
+		data := bytes.Repeat([]byte("d"), writerDataLen) // more than any chunk size: the writer has to flush
+		if what == "PushBlob" {
+			_, err := reg.PushBlob(ctx, "foo", ociregistry.Descriptor{Digest: digest.FromBytes(data), Size: int64(len(data)), MediaType: "application/octet-stream"}, bytes.NewReader(data))
+			return err
+		}
+		w, err := reg.PushBlobChunked(ctx, "foo", 0)
+		if err != nil {
+			return err
+		}
+		defer w.Close()
+		if _, err := w.Write(data); err != nil {
+			return err
+		}
+		_, err = w.Commit(digest.FromBytes(data))
+		return err
+	}
 	panic("unknown carrier")
+}
+
+const writerDataLen = 100 << 10
+
+// failWriter is a backend BlobWriter that fails with err at one stage.
+type failWriter struct {
+	stage string
+	err   error
+	size  int64
+}
+
+func (w *failWriter) Write(p []byte) (int, error) {
+	// the Write that completes the content is the one that fails: by then the server has read
+	// the whole request body (a response sent while the client is still writing its request can
+	// get lost in any HTTP/1.1 implementation; that race is not what is examined here)
+	if w.stage == "write" && w.size+int64(len(p)) >= writerDataLen {
+		return 0, w.err
+	}
+	w.size += int64(len(p))
+	return len(p), nil
+}
+func (w *failWriter) Close() error {
+	if w.stage == "close" {
+		return w.err
+	}
+	return nil
+}
+func (w *failWriter) Size() int64    { return w.size }
+func (w *failWriter) ChunkSize() int { return 0 }
+func (w *failWriter) ID() string     { return "upload-1" }
+func (w *failWriter) Cancel() error  { return nil }
+func (w *failWriter) Commit(dg ociregistry.Digest) (ociregistry.Descriptor, error) {
+	if w.stage == "commit" || w.stage == "close" {
+		return ociregistry.Descriptor{}, w.err
+	}
+	return ociregistry.Descriptor{Digest: dg, Size: w.size, MediaType: "application/octet-stream"}, nil
 }
 
 type observed struct {
@@ -178,6 +233,17 @@ type observed struct {
 func through(s Script, n int) (observed, error) {
 	before := s.build()
 	var reg ociregistry.Interface = &ociregistry.Funcs{NewError: func(ctx context.Context, method, repo string) error { return before }}
+	if _, stage, ok := strings.Cut(s.Carrier, "@"); ok {
+		fw := &failWriter{stage: stage, err: before}
+		reg = &ociregistry.Funcs{
+			PushBlobChunked_: func(ctx context.Context, repo string, chunkSize int) (ociregistry.BlobWriter, error) {
+				return fw, nil
+			},
+			PushBlobChunkedResume_: func(ctx context.Context, repo, id string, offset int64, chunkSize int) (ociregistry.BlobWriter, error) {
+				return fw, nil
+			},
+		}
+	}
 	var taps []*statusTap
 	var closers []func()
 	defer func() {
@@ -202,7 +268,10 @@ func through(s Script, n int) (observed, error) {
 		st := 0
 		for _, x := range t.statuses {
 			if x >= 400 {
+				// the first failure is the one that carries the error (a writer that has
+				// failed may still be closed afterwards, which can cost a further request)
 				st = x
+				break
 			}
 		}
 		o.statuses = append(o.statuses, st)
@@ -257,7 +326,7 @@ func run(s Script, v *vt.V) {
 		}
 		for hi, st := range o.statuses {
 			if st != wantStatus {
-				v.Failf("wrong-status", "%s: hop %d answered status %d, want %d", desc, hi, st, wantStatus)
+				v.Failf("wrong-status", "%s: hop %d answered status %d, want %d (statuses per hop %v, final error: %v)", desc, hi, st, wantStatus, o.statuses, o.err)
 				return
 			}
 		}
@@ -431,6 +500,11 @@ func genScript(t *rapid.T) Script {
 		s.Message = strings.Repeat("m", 8192-overhead-rapid.IntRange(0, 1).Draw(t, "underLimit"))
 	}
 	s.Carrier = rapid.SampledFrom(carriers).Draw(t, "carrier")
+	if strings.Contains(s.Carrier, "@") && len(s.Message) > 4096 {
+		// the server puts a context text in front of what a backend writer reports: a message
+		// sized to fill the client's limit exactly would no longer fit
+		s.Message = s.Message[:4096]
+	}
 	s.Hops = rapid.SampledFrom([]int{1, 2, 2, 3}).Draw(t, "hops")
 	return s
 }
@@ -438,7 +512,7 @@ func genScript(t *rapid.T) Script {
 var prop = &vt.Prop[Script]{
 	ID:   "C07",
 	Name: "ErrorsAcrossTheWire",
-	Rule: "error values: each of the 15 standard codes, custom codes, no code; optional JSON detail (objects, arrays, scalars, null, spaced); messages {empty, random UTF-8, beginning with the rendered code, with a status line, with both, stuttering, odd spacing}; 0-3 wrappers from {fmt %w, NewHTTPError(status)} with statuses 400-599 incl. ones without a reason phrase (419, 452, 499, 512, 599); carrier = each of the 18 Interface methods (GET, HEAD, POST, PUT, DELETE and list-based); sent through 1..3 real server->client hops, and for every hop count h <= hops; oracle = errors.Is against every standard value unchanged (HEAD carriers: the documented status mapping; ErrRangeInvalid status-based as documented), status on every hop = the specification's for the code, else the error's own HTTP status, else 500, code and detail JSON-equal, message after h hops == message after one hop; non-trivial = >= 2 hops, a wrapper, or a prefix-like message; distinct = (code, wraps, message class, carrier, hops, status)",
+	Rule: "error values: each of the 15 standard codes, custom codes, no code; optional JSON detail (objects, arrays, scalars, null, spaced); messages {empty, random UTF-8, beginning with the rendered code, with a status line, with both, stuttering, odd spacing}; 0-3 wrappers from {fmt %w, NewHTTPError(status)} with statuses 400-599 incl. ones without a reason phrase (419, 452, 499, 512, 599); carrier = each of the 18 Interface methods (GET, HEAD, POST, PUT, DELETE and list-based) and errors raised by the backend's BlobWriter at Write, Close or Commit (reached through a chunked writer and through PushBlob); sent through 1..3 real server->client hops, and for every hop count h <= hops; oracle = errors.Is against every standard value unchanged (HEAD carriers: the documented status mapping; ErrRangeInvalid status-based as documented), status on every hop = the specification's for the code, else the error's own HTTP status, else 500, code and detail JSON-equal, message after h hops == message after one hop; non-trivial = >= 2 hops, a wrapper, or a prefix-like message; distinct = (code, wraps, message class, carrier, hops, status)",
 	Gen:  genScript,
 	Run:  run,
 }
@@ -449,7 +523,7 @@ func TestPropErrors(t *testing.T) { vt.Check(t, prop) }
 var propGrid = &vt.Prop[Script]{
 	ID:   "C07",
 	Name: "ErrorGrid",
-	Rule: "complete grid: 15 standard codes + custom + none x 18 carriers x {bare, NewHTTPError(452) wrapper} over 2 hops",
+	Rule: "complete grid: 15 standard codes + custom + none x 23 carriers x {bare, NewHTTPError(452) wrapper} over 2 hops",
 	Run:  run,
 }
 
